@@ -26,6 +26,10 @@ static std::vector<Str> family() {
         Str s = Str(sc ? Str(sc) + ":" : "") + (a ? Str("//") + a : "") + pp + (q ? Str("?") + q : "") + (f ? Str("#") + f : "");
         if (ref::is_uri_reference(s) && seen.insert(s).second) v.push_back(s);
     }
+    // IPv6 literals: several spellings of one address (equal), and addresses one group, one digit or one position apart (different)
+    for (auto h : { "[::12]", "[::0012]", "[0:0:0:0:0:0:0:12]", "[::1f]", "[::2f]", "[::]", "[::1F]", "[3:4::5:1.2.3.4]", "[3:4:0:0:0:5:102:304]", "[3:4:0:5::1.2.3.4]", "[3:4:0:5:0:0:102:304]",
+                    "[::ffff:1.2.3.4]", "[::ffff:102:304]", "[::FFFF:0102:0304]", "[1::]", "[1:0::]", "[1:0:0:0:0:0:0:0]", "[0:1::]", "[fe80::abcd:10.0.0.1]", "[fe80::abcd:a00:1]", "[fe80:0:0:abcd::10.0.0.1]" })
+        for (auto pre : { "s://", "//u@" }) { Str s = Str(pre) + h + "/p"; if (ref::is_uri_reference(s) && seen.insert(s).second) v.push_back(s); }
     return v;
 }
 
